@@ -171,6 +171,22 @@ def check(spec):
         except Exception as e:
             raise Violation(f"clone-raises:{how}:{type(e).__name__}", f"{e!r}"[:300])
         evals += 1
+    # a shallow copy of a concat that was already used is switched to balanced sampling (public attribute): the copy follows its own
+    # configuration, the original keeps its own
+    if spec["t"] == "concat" and len(spec["children"]) >= 2 and all(S.ref_len(c) > 0 for c in ref["children"]):
+        clone = copy.copy(ds)
+        clone.balanced_sampling = True
+        ref_b = dict(ref, spec=dict(ref["spec"], balanced=True))
+        P_, mx_ = len(spec["children"]), max(S.ref_len(c) for c in ref["children"])
+        for k in range(0, 2 * mx_ * P_):
+            got_c, exp_c = clone.getitem_x(k), S.ref_item(ref_b, "x", k)
+            if not _eq(got_c, exp_c):
+                raise Violation("re-configured-shallow-copy-of-a-concat-keeps-the-old-map", f"getitem_x({k}) of the copy (balanced sampling switched on) = {got_c!r}, "
+                                                                                           f"round-robin map says {exp_c!r}")
+        for k in range(n):
+            if not _eq(ds.getitem_x(k), S.ref_item(ref, "x", k)):
+                raise Violation("re-configuring-a-shallow-copy-changes-the-original-concat", f"getitem_x({k})")
+        labels.append("copy-rebalanced")
     # a subset layer is re-configured after use (its public `indices` is re-assigned): accessors obtained before - a ModeWrapper keeps
     # them from its constructor on - follow the new indices like freshly looked-up ones
     node = ref
@@ -295,6 +311,46 @@ def check_slowpath(spec):
     return Case(S.depth(spec) >= 1, ["depth=%d" % S.depth(spec)], 5)
 
 
+def check_concat_normalises(spec):
+    """a concat resolves negative indices itself (k counts from the end of the WHOLE concat) before it picks the part: parts need no negative
+    indexing of their own - also a single part, also through pass-through wrappers below and above the concat"""
+    from kappadata.datasets import KDConcatDataset
+    parts, sizes = [], []
+    for pid_, (n_, wraps) in enumerate(spec["parts"]):
+        r = S.TokenRoot(pid_, n_, 3, "list", 0, False)
+        r.strict_neg = True
+        d = r
+        for _ in range(wraps):
+            d = S.PassWrapper2(d)
+        parts.append(d)
+        sizes.append(n_)
+    ds = KDConcatDataset(parts)
+    for _ in range(spec["above"]):
+        ds = S.PassWrapper2(ds)
+    N = sum(sizes)
+    if len(ds) != N:
+        raise Violation("concat:len", f"{len(ds)} vs {N}")
+    flat = [(pid_, j) for pid_, n_ in enumerate(sizes) for j in range(n_)]
+    for k in range(-N, N):
+        exp = ("x",) + flat[k]
+        try:
+            got = ds.getitem_x(k)
+        except Exception as e:
+            raise Violation(f"concat-hands-a-negative-index-to-its-part:{'single' if len(sizes) == 1 else 'multi'}", f"getitem_x({k}) over parts {sizes}: {e!r}"[:200])
+        if got != exp:
+            raise Violation("concat:wrong-sample", f"getitem_x({k}) = {got!r}, expected {exp!r}")
+    for k in (N, -N - 1):
+        try:
+            got = ds.getitem_x(k)
+        except Exception:
+            continue
+        raise Violation("concat:out-of-range-index-answered", f"getitem_x({k}) over {N} samples returned {got!r}")
+    return Case(True, ["parts=%d" % len(sizes)], 2 * N)
+
+
+CONCATN = st.fixed_dictionaries({"parts": st.lists(st.tuples(st.integers(1, 6), st.integers(0, 2)), min_size=1, max_size=3), "above": st.integers(0, 2)})
+
+
 @st.composite
 def slow_spec(draw):
     s = draw(S.root_spec(with_bulk=False))
@@ -317,6 +373,8 @@ FACETS = [
     Facet("deep-stacks", check, strategy=lambda tier: S.stack_spec(max_depth=8, allow_shipped=False),
           budget={"quick": 600, "thorough": 8000}, shards={"quick": 4, "thorough": 8},
           min_nontrivial={"quick": 100, "thorough": 1000}),
+    Facet("concat-normalises-negative-indices", check_concat_normalises, strategy=lambda tier: CONCATN,
+          budget={"quick": 300, "thorough": 3000}, shards={"quick": 1, "thorough": 2}, min_nontrivial={"quick": 50, "thorough": 300}),
     Facet("slowpath", check_slowpath, strategy=lambda tier: slow_spec(),
           budget={"quick": 300, "thorough": 3000}, shards={"quick": 1, "thorough": 4},
           min_nontrivial={"quick": 50, "thorough": 300}),
